@@ -127,6 +127,17 @@ def scenario(seed):
                 probs.append("%s %s in the configuration is silently ignored" % (why, bad))
             except ConfigurationError:
                 pass
+            # ... also in a per-file section, which is applied to a rule list the main configuration has been applied to before
+            ok = config.config()
+            ok.dConfig = {"rule": {target.unique_id: {"disable": False}}}
+            ok.severity_list = oConfig.severity_list
+            rl = rule_list.rule_list(oFile, oConfig.severity_list)
+            try:
+                rl.configure(ok)
+                rl.configure(c)
+                probs.append("%s %s in a configuration applied after a valid one (per-file section) is silently ignored" % (why, bad))
+            except ConfigurationError:
+                pass
         return (seed, probs, {"rule": target.unique_id, "attr": attr, "levels": used, "file_spelling": spelling})
     finally:
         shutil.rmtree(d, ignore_errors=True)
